@@ -20,6 +20,7 @@ Sig == [interpret |-> <<<<"tree">>, "graph", FALSE>>,
         encode |-> <<<<"graph">>, "", FALSE>>,
         decode_encode |-> <<<<"graph">>, "graph", FALSE>>,
         copy_graph |-> <<<<"graph">>, "graph", FALSE>>,
+        relayout |-> <<<<"graph">>, "graph", FALSE>>,
         canonicalize_roles |-> <<<<"tree">>, "tree", FALSE>>,
         reify_edges |-> <<<<"graph">>, "graph", FALSE>>,
         dereify_edges |-> <<<<"graph">>, "graph", FALSE>>,
@@ -30,6 +31,7 @@ Sig == [interpret |-> <<<<"tree">>, "graph", FALSE>>,
         diagnostics |-> <<<<"graph">>, "", FALSE>>,
         alignments |-> <<<<"graph">>, "", FALSE>>,
         tree_nodes |-> <<<<"tree">>, "", FALSE>>,
+        triples |-> <<<<"graph">>, "", FALSE>>,
         union |-> <<<<"graph", "graph">>, "graph", FALSE>>,
         difference |-> <<<<"graph", "graph">>, "graph", FALSE>>,
         union_inplace |-> <<<<"graph", "graph">>, "", TRUE>>,
@@ -56,6 +58,18 @@ Call(op, args) ==
 Next == \E op \in Ops : \E a1 \in DOMAIN pool : \/ Call(op, <<a1>>)
                                                \/ \E a2 \in DOMAIN pool : Call(op, <<a1, a2>>)
 Spec == Init /\ [][Next]_<<pool, hist>>
+\* Directed histories (a sub-machine of Spec, enumerated completely): an object derived from a graph meets that graph again as
+\* the other operand of a binary operation, in both orders, and both are then observed - the shortest histories in which a
+\* result that shares structure with its argument, or an operand changed by a "pure" operator, shows.
+GraphMakers == {op \in Ops : Sig[op][1] = <<"graph">> /\ Sig[op][2] = "graph" /\ ~InPlace(op)}
+Binary == {op \in Ops : Len(Sig[op][1]) = 2}
+Observers == {"encode", "queries", "diagnostics", "alignments"}
+DNext == \/ Len(hist) = 0 /\ \E op \in GraphMakers, a \in {3, 4} : Call(op, <<a>>)
+         \/ Len(hist) = 1 /\ \E op \in Binary : LET a == hist[1].args[1] IN Call(op, <<a, 5>>) \/ Call(op, <<5, a>>)
+         \/ Len(hist) = 2 /\ \E op \in Observers : Call(op, <<hist[1].args[1]>>)
+         \/ Len(hist) = 3 /\ \E op \in Observers : Call(op, <<5>>)
+DSpec == Init /\ [][DNext]_<<pool, hist>>
+DExport == Len(hist) = 4 => PrintT("X|" \o ToJson([hist |-> hist]))
 Last == hist'[Len(hist')]
 PureFrame == [][~InPlace(Last.op) => \A i \in DOMAIN pool : pool'[i] = pool[i]]_<<pool, hist>>
 InPlaceFrame == [][InPlace(Last.op) => (Len(pool') = Len(pool) /\ \A i \in DOMAIN pool : i # Last.args[1] => pool'[i] = pool[i])]_<<pool, hist>>
